@@ -669,6 +669,8 @@ class Evaluator:
     def is_none(self, v: Any) -> Cond:
         if v is TNone:
             return TRUE
+        if isinstance(v, (tuple, TObj, TStr, TList, TBlock, TConst, TEnum)):
+            return FALSE
         if isinstance(v, Sym):
             return Cond('is_none', (v,))
         if isinstance(v, TAlt):
@@ -726,6 +728,8 @@ class Evaluator:
             return Cond('or', (Cond('and', (v.cond, a)), Cond('and', (c_not(v.cond), b))))
         if isinstance(v, TFunc):
             return TRUE
+        if isinstance(v, tuple) and v and v[0] in ('nsids', 'nsconcat', 'class', 'findresult'):
+            return TRUE          # instances of classes without __bool__/__len__ are truthy
         return Cond('opaque', (type(v).__name__,))
 
     def nonempty(self, items: list) -> Cond:
@@ -889,6 +893,12 @@ class Evaluator:
                 return TFunc(m, {})
         if isinstance(base, tuple) and base[0] == 'module':
             return self.from_symbol(prog.resolve_name(base[1], attr), attr, fn)
+        if isinstance(base, tuple) and base and base[0] == 'nsids' and attr == 'items':
+            return TList([lit(x) for x in base[1]])
+        if isinstance(base, tuple) and base and base[0] == 'nsconcat' and attr == 'items':
+            return self.opaque('items of a symbolic namespace concatenation')
+        if isinstance(base, TBlock) and attr in ('lines', '_lines'):
+            return TList(base.items)
         if isinstance(base, (TStr, TList, TBlock)):
             return ('method', base, attr)
         if base is TNone:
@@ -931,6 +941,10 @@ class Evaluator:
                 cls = self.prog.classes.get(strip_opt(x.typ)[1])
             if cls is not None and cls.name == 'NamespaceIds':
                 return ('nsconcat', a, b)
+        if isinstance(a, tuple) and a and a[0] == 'nsids' and isinstance(b, tuple) and b and b[0] == 'nsids':
+            return ('nsids', a[1] + b[1])
+        if isinstance(a, tuple) and a and a[0] == 'nsids':
+            return ('nsconcat', a, b)
             if cls is not None:
                 m = self.prog.lookup_method(cls, '__add__')
                 if m is not None:
@@ -1027,6 +1041,8 @@ class Evaluator:
             return TStr([OpaqueS('str(list)')])
         if isinstance(v, TRaise):
             return TStr([OpaqueS(f'raises {v.what}')])
+        if isinstance(v, tuple) and v and v[0] == 'nsids':
+            return lit('.'.join(v[1]))
         if isinstance(v, tuple) and v and v[0] == 'nsconcat':
             return TStr([FqnS(v, 'dotted')])
         if isinstance(v, TOpaque):
